@@ -185,15 +185,28 @@ func c18FuzzResp(ver, flags, where uint8, extra1, extra2, join []byte) c18RespCa
 }
 
 func FuzzVF_C18_resp(f *testing.F) {
-	for i, c := range c18SeedEvents() {
-		f.Add(uint8(c18VersionIndex(c.Version)), uint8(i), uint8(i*7), []byte(c.Event), []byte(nil), []byte(nil))
-		f.Add(uint8(c18VersionIndex(c.Version)), uint8(i), uint8(1), []byte(c.Event), []byte(c.Event), []byte(c.Event))
+	// Small structured arguments (the event spliced into the answer is built, hashed and signed from
+	// them): one execution costs tens of milliseconds, and the fuzzer's minimiser re-executes the
+	// target once per byte of every []byte / string argument.
+	for _, s := range c18SeedFields() {
+		f.Add(s.ver, s.role, s.flags, uint8(len(s.content)), []byte(s.content), s.roomID, s.sender, s.stateKey, s.depth)
 	}
-	f.Fuzz(func(t *testing.T, ver, flags, where uint8, extra1, extra2, join []byte) {
-		if len(extra1)+len(extra2)+len(join) > c18MaxFuzzLen {
+	f.Fuzz(func(t *testing.T, ver, role, flags, where uint8, content []byte, roomID, sender, stateKey string, depth int64) {
+		if len(content) > 4096 || len(roomID)+len(sender)+len(stateKey) > 2048 {
 			return
 		}
-		vfFuzzEval(t, "C18/resp", c18FuzzResp(ver, flags, where, extra1, extra2, join), c18RespCheck)
+		c, ok := c18FuzzEvent(ver, role, flags, content, roomID, sender, stateKey, depth)
+		if !ok {
+			return
+		}
+		var extra2 []byte
+		switch where >> 6 {
+		case 1:
+			extra2 = c.Event // the same PDU twice
+		case 2:
+			extra2 = []byte("null")
+		}
+		vfFuzzEval(t, "C18/resp", c18FuzzResp(ver, flags, where, c.Event, extra2, nil), c18RespCheck)
 	})
 }
 
@@ -440,10 +453,10 @@ func TestVF_C18_DumpCorpus(t *testing.T) {
 	u8 := func(x uint8) string { return fmt.Sprintf("uint8(%d)", x) }
 	for i, c := range c18SeedEvents() {
 		write("FuzzVF_C18_event_bytes", i, b(c.Event), u8(uint8(c18VersionIndex(c.Version))), u8(uint8(i)))
-		write("FuzzVF_C18_resp", i, u8(uint8(c18VersionIndex(c.Version))), u8(uint8(i)), u8(uint8(i*7)), b(c.Event), b(nil), b(c.Event))
 	}
 	for i, s := range c18SeedFields() {
 		write("FuzzVF_C18_event_fields", i, u8(s.ver), u8(s.role), u8(s.flags), b([]byte(s.content)), str(s.roomID), str(s.sender), str(s.stateKey), fmt.Sprintf("int64(%d)", s.depth))
+		write("FuzzVF_C18_resp", i, u8(s.ver), u8(s.role), u8(s.flags), u8(uint8(i*37)), b([]byte(s.content)), str(s.roomID), str(s.sender), str(s.stateKey), fmt.Sprintf("int64(%d)", s.depth))
 	}
 	for i, s := range c18JSONHostile {
 		write("FuzzVF_C18_json", i, b([]byte(s)), u8(4), u8(10))
